@@ -416,8 +416,8 @@ def run_case(case):
             else:
                 raise RuntimeError("unknown op " + name)
         except Exception as ex:  # noqa
-            k = errkind(ex)
-            out.append(["err", k] if not k.startswith("other:") else ["other", k[6:]])
+            # every exception is a refusal; classes / messages the check does not know stay visible in the kind
+            out.append(["err", errkind(ex)])
     if out and not sibling_ok():
         out[-1] = ["other", "an independent container of the same session changed (shared state between containers)"]
     return out
